@@ -147,7 +147,20 @@ func (g *fakeGitHub) handle(c net.Conn, r *http.Request, host string) {
 	switch {
 	case strings.HasSuffix(path, "/repos/coreruleset/crs-toolchain/releases"):
 		if listFail != 0 {
-			writeResp(c, listFail, "application/json", []byte(`{"message":"failure injected"}`))
+			// the shapes in which the real service refuses: 4031 = the hourly limit of anonymous requests is used up
+			// (403 with X-RateLimit-Remaining: 0), 4032 = secondary ("abuse") limit with Retry-After
+			switch listFail {
+			case 4031:
+				body := []byte(`{"message":"API rate limit exceeded for 203.0.113.7.","documentation_url":"https://docs.github.com/rest/overview/resources-in-the-rest-api#rate-limiting"}`)
+				fmt.Fprintf(c, "HTTP/1.1 403 Forbidden\r\nContent-Type: application/json\r\nX-RateLimit-Limit: 60\r\nX-RateLimit-Remaining: 0\r\nX-RateLimit-Reset: 1893456000\r\nContent-Length: %d\r\nConnection: keep-alive\r\n\r\n", len(body))
+				_, _ = c.Write(body)
+			case 4032:
+				body := []byte(`{"message":"You have triggered an abuse detection mechanism. Please wait a few minutes before you try again.","documentation_url":"https://developer.github.com/v3/#abuse-rate-limits"}`)
+				fmt.Fprintf(c, "HTTP/1.1 403 Forbidden\r\nContent-Type: application/json\r\nRetry-After: 1\r\nContent-Length: %d\r\nConnection: keep-alive\r\n\r\n", len(body))
+				_, _ = c.Write(body)
+			default:
+				writeResp(c, listFail, "application/json", []byte(`{"message":"failure injected"}`))
+			}
 			return
 		}
 		type asset struct {
